@@ -141,6 +141,8 @@ struct LFeeder : mp::NLFeeder<LFeeder, int> {
   template <class W> void FeedConBounds(W &w) { AlgConRange r; r.L = -INFINITY; r.U = 10; w.WriteAlgConRange(r); r.L = 1.5; r.U = 1.5; w.WriteAlgConRange(r); }
   template <class W> void FeedLinearConExpr(int i, W &f) { auto w = f.MakeVectorWriter(3); w.Write(0, 1.0); w.Write(i == 0 ? 1 : 2, 0.25); w.Write(3, -3.0); }
   template <class W> void FeedColumnSizes(W &w) { if (mode) for (int s : cols) w.Write(s); }
+  // suffixes: a real one with an entry, and a real and an integer one without entries (nothing is to be written for those)
+  template <class W> void FeedSuffixes(W &swf) { { auto sw = swf.StartDblSuffix("wgt", 0 | 4, 1); sw.Write(1, 0.25); } { auto sw = swf.StartDblSuffix("ctol", 1 | 4, 0); (void)sw; } { auto sw = swf.StartIntSuffix("cprio", 1, 0); (void)sw; } { auto sw = swf.StartIntSuffix("prio", 0, 2); sw.Write(0, -7); sw.Write(2, 12345); } }
 };
 struct LHandler : mp::NullNLHandler<int> {
   std::vector<int> sizes; std::vector<double> vlb, vub, clb, cub; std::vector<std::pair<int, double>> jac;
@@ -148,6 +150,9 @@ struct LHandler : mp::NullNLHandler<int> {
   ColumnSizeHandler OnColumnSizes() { return ColumnSizeHandler{&sizes}; }
   void OnVarBounds(int, double l, double u) { vlb.push_back(l); vub.push_back(u); }
   void OnConBounds(int, double l, double u) { clb.push_back(l); cub.push_back(u); }
+  std::vector<std::pair<int, int>> isuf;
+  struct IntSuffixHandler { std::vector<std::pair<int, int>> *v; void SetValue(int i, int val) { v->push_back({i, val}); } };
+  IntSuffixHandler OnIntSuffix(fmt::StringRef, mp::suf::Kind, int) { return IntSuffixHandler{&isuf}; }
   struct LinearConHandler { std::vector<std::pair<int, double>> *v; void AddTerm(int i, double c) { v->push_back({i, c}); } };
   LinearConHandler OnLinearConExpr(int, int) { return LinearConHandler{&jac}; }
 };
@@ -171,6 +176,7 @@ static int linear_mode() {
     if (h.vlb.size() != 4 && bad++ < 8) printf("VIOLATED: %d variable bounds read back, 4 written\n", (int)h.vlb.size());
     if ((h.clb.size() != 2 || h.clb[0] != -INFINITY || h.cub[0] != 10 || h.clb[1] != 1.5 || h.cub[1] != 1.5) && bad++ < 8) printf("VIOLATED: constraint bounds are not read back as written\n");
     std::vector<std::pair<int, double>> wj = {{0, 1.0}, {1, 0.25}, {3, -3.0}, {0, 1.0}, {2, 0.25}, {3, -3.0}};
+    if (h.isuf != std::vector<std::pair<int, int>>{{0, -7}, {2, 12345}} && bad++ < 8) printf("VIOLATED: the integer suffix values (0: -7, 2: 12345) are not read back as written (%s)\n", binary ? "binary" : "text");
     if (h.jac != wj && bad++ < 8) printf("VIOLATED: the linear parts of the constraints (J segments) are not read back as written\n");
   }
   if (bad) return 10;
